@@ -16,9 +16,24 @@ def main():
     args = ap.parse_args()
     seed = int(os.environ.get("VERIF_SEED", "0"))
     ctx = common.Ctx(args.prop.upper(), args.tier, seed, args.replay)
+    extras = []
+    try:  # source fingerprints (DESIGN.md 2.3 (a)): which modelled functions changed since the models were written
+        sys.path.insert(0, os.path.join(os.path.dirname(os.path.abspath(__file__)), "translators"))
+        import fingerprint
+        ctx.fingerprint = fingerprint.report(ctx.prop)
+    except Exception as e:  # never fatal: the correspondence decides, not the hashes
+        ctx.fingerprint = {"error": repr(e)[:300]}
+    rel = ctx.fingerprint.get("relevant_to_property") or []
+    if rel:
+        print(f"NOTE: property={ctx.prop} source changed since the recorded fingerprints in {len(rel)} function(s) this property "
+              f"depends on: {', '.join(rel[:6])}{' …' if len(rel) > 6 else ''} — not a violation by itself; sampling is escalated", flush=True)
+        extras = common.start_escalation(ctx)
     mod = importlib.import_module("props." + args.prop.lower())
     try:
-        mod.run(ctx)
+        try:
+            mod.run(ctx)
+        finally:
+            common.join_escalation(ctx, extras)
     except SystemExit:
         raise
     except Exception:  # machinery failure, not a violation
